@@ -115,16 +115,17 @@ func runCanaries(prop string, workers int) ([]map[string]interface{}, []string) 
 							failed = append(failed, fn+"/hint-mismatch")
 							continue
 						}
-						fr := prog.VerifyFuncRebinding(fi, func(obs []*vc.Obligation) bool {
+						fr := prog.VerifyFuncRebinding(fi, func(obs []*vc.Obligation) int {
+			nfail := 0
 							for _, sr := range vc.SolveAll(obs, smt, 10, 6) {
 								if sr.Ob.MustFail || sr.Ob.Kind == "aux" {
 									continue
 								}
 								if sr.Status != "unsat" {
-									return false
+									nfail++
 								}
 							}
-							return true
+							return nfail
 						})
 						for _, u := range fr.Unsupported {
 							failed = append(failed, fr.Func+"/unsupported:"+u)
